@@ -234,6 +234,19 @@ def run(ctx):
                 "(buffer reached: %s, reordering combinators: %s): delete-then-insert of one triple commits as a delete, so only part "
                 "of the transaction's writes survive" % (from_buffer, sorted(reord)), where=ctx_fn.loc())
 
+    # ---- R6b every operation issued inside a transaction reaches the buffer: insert_in_tx / remove_in_tx push
+    # unconditionally (a shortcut that looks at the committed set when the statement runs decides on a state the buffer
+    # is not applied to)
+    for nm in ("insert_in_tx", "remove_in_tx"):
+        bf = P.fn("RdfStore::" + nm)
+        bx = FlowCx(P, bf)
+        pushes = {bi for bi, t in bf.calls() if callee_name(t).split("::")[-1] in ("push", "push_back", "extend") and
+                  any(x in bx.tags(t["args"][0]) for x in ("cell:RdfStore.tx_buffer", "cell:TransactionBuffer.buffers"))}
+        ok = bool(pushes) and must_pass(bf, 0, pushes, set(bf.exits()))
+        ctx.ob("R6", "RdfStore::%s#always-buffers" % nm, ok,
+               what="RdfStore::%s can return without recording the operation in the transaction buffer: part of the "
+                    "transaction's writes is missing when the buffer is applied at commit" % nm, where=bf.loc())
+
     # ---- R7 the session's direct mutators create versions tagged with the session's own transaction
     for n, acc in (("create_node", "create_node_versioned"), ("create_node_with_props", "create_node_with_props_versioned"),
                    ("create_edge", "create_edge_versioned")):
